@@ -286,10 +286,14 @@ class Machine(object):
             c.poke(vcpu_field("app_id", p, b)[0], "B", c.core_app[p])
             c.poke(vcpu_field("phys_cpu", p, b)[0], "B", p)
 
+    p2p_blind = {}      # {chip: chips missing from THAT chip's table}
+
     def p2p_entry(self, src, x, y):
         """3-bit P2P route on chip `src` towards (x, y)"""
         if (x, y) in self.p2p_extra_none:
             return 6
+        if (x, y) in self.p2p_blind.get((src.x, src.y), ()):
+            return 6        # this chip (only) has lost its route there
         if (x, y) not in self.chips and (x, y) not in self.p2p_extra:
             return 6
         if (x, y) == (src.x, src.y):
